@@ -869,6 +869,20 @@ func main() {
 		s.Close()
 		r.Finish()
 	}
+	if tr := os.Getenv("C03_FDPROBE"); tr != "" { // debugging aid: run one trace 200 times, print the open descriptors
+		c := configs(r)[1]
+		for i := 0; i < 200; i++ {
+			s := newSys(c)
+			for _, ev := range strings.Fields(tr) {
+				s.Apply(ev)
+			}
+			s.Close()
+		}
+		time.Sleep(500 * time.Millisecond)
+		ents, _ := os.ReadDir("/proc/self/fd")
+		fmt.Printf("FDPROBE trace=%q open descriptors after 200 executions: %d\n", tr, len(ents))
+		os.Exit(0)
+	}
 	r.SetBudget(6*time.Minute, 60*time.Minute)
 	depth := 7
 	if !r.Quick() {
